@@ -304,8 +304,8 @@
         (let ((len (parser (lambda (prev-i i field) (vector-set! res i field) i)
                            0
                            in)))
-          (if (zero? len)
-              (eof-object)
+          (if (eof-object? len)
+              len
               res))))))
 
 ;;> Returns an SXML representation of the record, as a row with
